@@ -14,7 +14,7 @@ ID = "C09"
 META = {
     "engine": "smallscope",
     "technique": "exhaustive small-scope enumeration of models x containers x labels x validity predicates (all subsets of assignments) against a truth-table reference",
-    "text": "All models with <=3 variables and <=2 (quick) / <=3 (thorough) terms over coefficients {-1,1,2} (ties by design), in every container "
+    "text": "All models with <=3 variables and <=2 (quick) / <=3 (thorough) terms over coefficients {-1,1,2} (ties by design), in every container (raw dicts also with permuted / repeated / duplicate keys and with explicit zero coefficients on otherwise unused variables) "
             "and label scheme, are solved with every brute-force entry point; for the reduced slice every one of the 2^(2^n) validity predicates is "
             "tried. Objective, key set, minimality, the exact multiset of minimisers, constants, None on empty feasible set and argument immutability "
             "are compared with a truth-table reference.",
@@ -30,7 +30,8 @@ def containers(kind):
     base = list(gen.BOOL_CONTAINERS if kind == "bool" else gen.SPIN_CONTAINERS)
     # "-supermap": a labelled model that carries a user-set mapping with one more label than it uses (a mapping shared by a
     # family of models); the extra label is not a variable of the model
-    return base + ["dictperm", "dictrep", "dictdup"] + (["PUBO-supermap", "QUBO-supermap"] if kind == "bool" else ["PUSO-supermap", "QUSO-supermap"])
+    # "dictzero": a raw dict with an explicit zero coefficient on a variable that has no other term (still a variable of the model)
+    return base + ["dictperm", "dictrep", "dictdup", "dictzero"] + (["PUBO-supermap", "QUBO-supermap"] if kind == "bool" else ["PUSO-supermap", "QUSO-supermap"])
 
 
 def gen_cases(tier):
@@ -57,6 +58,8 @@ def gen_cases(tier):
                         continue
                     if cont.endswith("-supermap") and not any(k for k in D):
                         continue
+                    if cont == "dictzero" and (not any(k for k in D) or gen.uses_all(D, N)):
+                        continue
                     schemes = gen.MATRIX_SCHEMES if cont in gen.MATRIX else (gen.LABELLED_SCHEMES if not cont.endswith("-supermap") else ("str", "gap"))
                     for sch in schemes:
                         full = sch in ("int", "str") and cont in ("dict", "PUBO", "PUSO", "QUBOMatrix", "QUSOMatrix") \
@@ -74,6 +77,13 @@ def build_model(case):
     cont = case["container"]
     if cont == "dictperm":
         return {tuple(reversed(k)): v for k, v in D.items()}, D
+    if cont == "dictzero":
+        free = [l for l in gen.labels_for(case["scheme"], N) if not any(l in k for k in D)]
+        M = dict(D)
+        M[(free[-1],)] = 0
+        if len(free) > 1:
+            M = dict([((free[0], free[-1]), 0.0)] + list(M.items()))
+        return M, dict(M)
     if cont == "dictdup":
         from .c04 import spell
         return spell(D, "dictdup", spin), D
